@@ -400,9 +400,10 @@ def record_view(rec, fmt, stereo=True):
             return v
         return {'kind': 'rxn', 'r': [member(m) for m in rec.reactants],
                 'p': [member(m) for m in rec.products], 'a': [member(m) for m in rec.reagents],
-                'name': rec.name.strip(), 'meta': norm_meta(rec._meta, fmt),
+                'name': rec.name.strip(), 'meta': norm_meta(rec._meta, fmt), 'log': bool((rec._meta or {}).get('chython_parsing_log')),
                 'unparsed': _unparsed(rec._meta)}
     v = mol_view(rec, stereo)
+    v['log'] = bool((rec._meta or {}).get('chython_parsing_log'))
     v['kind'] = 'mol'
     v['name'] = rec.name.strip()
     v['meta'] = norm_meta(rec._meta, fmt)
